@@ -115,6 +115,34 @@ static void exec(vh::Rng & r, vh::Out & out)
   }
 }
 
+// replay of model paths (spec -> implementation): script lines  R est | D n | F i j.. y | W i w | E | WE
+template<class R>
+static void runScript(const std::vector<std::vector<std::string>> & sc, vh::Out & out)
+{
+  std::unique_ptr<LeastSquares<R>> ls;
+  int est = 0;
+  for (auto & t : sc) {
+    if (t[0] == "R") {est = (int)vh::I(t[1]); ls.reset(new LeastSquares<R>(est)); out.put(vh::Ev("Reset").i("est", est).i("float", sizeof(R) == 4).i("ctor", 0));}
+    else if (t[0] == "D") {bool g = ls->setDataSize((size_t)vh::I(t[1])); out.put(vh::Ev("setDataSize").i("n", vh::I(t[1])).b("grew", g));}
+    else if (t[0] == "F") {
+      int i = (int)vh::I(t[1]); IV row; for (int k = 0; k < est; ++k) {row.push_back(vh::I(t[2 + k])); ls->getJ()(i - 1, k) = (R)row[k];}
+      long long y = vh::I(t[2 + est]); ls->getY()(i - 1) = (R)y;
+      out.put(vh::Ev("fill").i("i", i).vec("j", row).i("y", y));
+    } else if (t[0] == "W") {
+      int i = (int)vh::I(t[1]); ls->getW()(i - 1) = (R)vh::I(t[2]);
+      out.put(vh::Ev("setW").i("i", i).i("w", vh::I(t[2])).i("wread", (long long)ls->getW()(i - 1)));
+    } else if (t[0] == "E" || t[0] == "WE") {
+      for (int rep = 0; rep < (t[0] == "E" ? 2 : 1); ++rep) {
+        std::string how = t[0] == "WE" ? "weighted" : (rep ? "chol" : "svd");
+        typename LeastSquares<R>::Vector x = how == "weighted" ? ls->weightedEstimate() : how == "svd" ? ls->estimateUsingSVD() : ls->estimateUsingCholeskyDecomposition();
+        IV xi; bool ok = true;
+        for (int k = 0; k < est; ++k) {double v = (double)x(k), rv = std::nearbyint(v); if (!(std::fabs(v - rv) <= (sizeof(R) == 4 ? 1e-3 : 1e-8) * std::max(1.0, std::fabs(rv)))) {ok = false;} xi.push_back(std::isfinite(rv) && std::fabs(rv) < 1e9 ? (long long)rv : 0);}
+        out.put(vh::Ev("estimate").str("how", how).vec("x", xi).b("exact", ok));
+      }
+    }
+  }
+}
+
 // solver covariance on generic real-valued problems (relative residual in units of 1e-12)
 template<class R>
 static void covgen(vh::Rng & r, vh::Out & out)
@@ -145,6 +173,17 @@ static void covgen(vh::Rng & r, vh::Out & out)
 
 int main(int argc, char ** argv)
 {
+  if (argc == 4 && std::string(argv[1]) == "script") {
+    auto sc = vh::readScript(argv[2]);
+    vh::Out out(argv[3]);
+    std::vector<std::vector<std::string>> one;
+    long long nx = 0;
+    auto flush = [&]() {if (!one.empty()) {if (nx++ % 2) {runScript<float>(one, out);} else {runScript<double>(one, out);} one.clear();}};
+    for (auto & t : sc) {if (t[0] == "R") {flush();} one.push_back(t);}
+    flush();
+    std::printf("%lld\n", out.lines);
+    return 0;
+  }
   if (argc != 5 || std::string(argv[1]) != "random") {std::fprintf(stderr, "usage: drive_lsq random seed nexec out\n"); return 3;}
   vh::Rng r(std::strtoull(argv[2], nullptr, 10));
   int n = std::atoi(argv[3]);
